@@ -77,6 +77,8 @@ type End struct {
 	// fault plan
 	ReadFailAfter int // >=0: Read fails once this many envelopes were delivered
 	WriteFailAt   int // >=0: the k-th Write (0-based) and all later ones fail
+	WriteFailsWithRead bool // once a Read has failed by plan, Writes fail too
+	ReadFailed    bool
 	// hooks run inline in the calling thread
 	OnWrite func(k int, rpc *Rpc) // before the k-th envelope is enqueued
 	OnRead  func(k int, rpc *Rpc) // after the k-th envelope was dequeued
@@ -111,6 +113,7 @@ func (e *End) Break() {
 
 func (e *End) Read(ctx context.Context) (*Rpc, error) {
 	if e.ReadFailAfter >= 0 && e.NRead >= e.ReadFailAfter {
+		e.ReadFailed = true
 		return nil, ErrReadFault
 	}
 	if e.down {
@@ -145,6 +148,9 @@ func (e *End) Read(ctx context.Context) (*Rpc, error) {
 func (e *End) Write(ctx context.Context, rpc *Rpc) error {
 	k := e.NWritten
 	if e.WriteFailAt >= 0 && k >= e.WriteFailAt {
+		return ErrWriteFault
+	}
+	if e.WriteFailsWithRead && e.ReadFailed {
 		return ErrWriteFault
 	}
 	if e.down {
